@@ -16,6 +16,7 @@ import (
 
 	"fpcheck/core"
 
+	"golang.org/x/tools/go/cfg"
 	"golang.org/x/tools/go/packages"
 )
 
@@ -89,7 +90,7 @@ func refLike(t types.Type) bool {
 }
 
 func PureCombine(c *core.Ctx, rule string, pkgs []*packages.Package, floor int) {
-	c.Rule(rule, "a binary closure func(a, b T) T of the monoid/semigroup packages whose operands are pointers, maps or slices never assigns through them (*a = …, a[k] = …, a.f = …, delete(a, …), copy(a, …), clear(a)): Combine is a function of the operand values, and evaluating one grouping must not change the operands of another")
+	c.Rule(rule, "a binary closure func(a, b T) T of the monoid/semigroup packages whose operands are pointers, maps or slices never assigns through them (*a = …, a[k] = …, a.f = …, delete(a, …), copy(a, …), clear(a), append(a, …) onto an operand): Combine is a function of the operand values, and evaluating one grouping must not change the operands of another")
 	n := 0
 	for _, bc := range binClosures(c, pkgs) {
 		if bc.res == nil || !types.Identical(bc.res, bc.a.Type()) || !refLike(bc.a.Type()) {
@@ -128,6 +129,22 @@ func PureCombine(c *core.Ctx, rule string, pkgs []*packages.Package, floor int) 
 					if isBuiltinCall(info, s, b) && len(s.Args) > 0 {
 						if o := objOf(info, s.Args[0]); o != nil && roots[o] {
 							bad, why = s, b+" on operand "+o.Name()
+						}
+					}
+				}
+				// append(a, …) writes into a's spare capacity (a full slice expression a[:n:n] has none)
+				if isBuiltinCall(info, s, "append") && len(s.Args) > 1 {
+					first := ast.Unparen(s.Args[0])
+					if se, ok := first.(*ast.SliceExpr); ok {
+						if se.Slice3 {
+							first = nil
+						} else {
+							first = ast.Unparen(se.X)
+						}
+					}
+					if first != nil {
+						if o := objOf(info, first); o != nil && roots[o] {
+							bad, why = s, "append onto operand "+o.Name()+" (writes into its spare capacity; the result aliases it)"
 						}
 					}
 				}
@@ -764,4 +781,532 @@ func constSign(v interface{ String() string }) int {
 		}
 	}
 	return 1
+}
+
+// ---------------------------------------------------------------- R-SETCTX
+
+// WrapperCtx: results of a wrapper's methods keep the wrapper's factory (the hasher context of fp.Set).
+func WrapperCtx(c *core.Ctx, rule string, p *packages.Package, floor int) {
+	c.Rule(rule, "in every method of the persistent-collection wrappers fp.Set / fp.Map that have a function-typed factory field (fp.Set.getEmpty: the source of the empty collection with the user's Hashable) and returns the same wrapper type, each composite literal of the wrapper type sets that field from the receiver: a result built as W{} falls back to the built-in == on Go maps for every later insertion, so it no longer agrees with the reference under a hasher whose Eqv is coarser than ==")
+	info := p.TypesInfo
+	n := 0
+	for _, fb := range funcBodies(c, []*packages.Package{p}) {
+		if fb.Lit != nil || fb.Decl == nil || fb.Decl.Recv == nil || len(fb.Decl.Recv.List) != 1 || len(fb.Decl.Recv.List[0].Names) != 1 {
+			continue
+		}
+		recv := info.Defs[fb.Decl.Recv.List[0].Names[0]]
+		if recv == nil {
+			continue
+		}
+		rt := recv.Type()
+		if pt, ok := rt.(*types.Pointer); ok {
+			rt = pt.Elem()
+		}
+		rn := namedOf(rt)
+		if rn == nil {
+			continue
+		}
+		if rn.Obj().Name() != "Set" && rn.Obj().Name() != "Map" {
+			continue // the persistent-collection wrappers of the property
+		}
+		st, ok := rn.Underlying().(*types.Struct)
+		if !ok {
+			continue
+		}
+		var factory []string
+		for i := 0; i < st.NumFields(); i++ {
+			if _, isFn := st.Field(i).Type().Underlying().(*types.Signature); isFn {
+				factory = append(factory, st.Field(i).Name())
+			}
+		}
+		if len(factory) == 0 {
+			continue
+		}
+		// returns the wrapper type?
+		returnsW := false
+		if fb.Type.Results != nil {
+			for _, r := range fb.Type.Results.List {
+				if tv, ok := info.Types[r.Type]; ok {
+					if n2 := namedOf(tv.Type); n2 != nil && n2.Obj() == rn.Obj() {
+						returnsW = true
+					}
+				}
+			}
+		}
+		if !returnsW {
+			continue
+		}
+		k := 0
+		ast.Inspect(fb.Body, func(x ast.Node) bool {
+			cl, ok := x.(*ast.CompositeLit)
+			if !ok {
+				return true
+			}
+			tv, ok := info.Types[cl]
+			if !ok {
+				return true
+			}
+			if n2 := namedOf(tv.Type); n2 == nil || n2.Obj() != rn.Obj() {
+				return true
+			}
+			k++
+			n++
+			key := fb.Name + "/literal#" + itoa(k)
+			for _, f := range factory {
+				set := false
+				positional := len(cl.Elts) == st.NumFields()
+				for _, e := range cl.Elts {
+					kv, ok := e.(*ast.KeyValueExpr)
+					if !ok {
+						continue
+					}
+					positional = false
+					if id, ok := kv.Key.(*ast.Ident); ok && id.Name == f {
+						// value must come from the receiver's field
+						if sel, ok := ast.Unparen(kv.Value).(*ast.SelectorExpr); ok && sel.Sel.Name == f && objOf(info, sel.X) == recv {
+							set = true
+						}
+					}
+				}
+				if positional {
+					set = true // all fields given positionally (constructor-style)
+				}
+				if !set {
+					c.Add(rule, key, cl.Pos(), core.Violated, exprString(cl)+" does not carry the receiver's "+f+": the result forgets the Hashable it was built with, and elements added to it later are compared with == instead")
+					return true
+				}
+			}
+			c.Add(rule, key, cl.Pos(), core.Discharged, "factory field taken from the receiver")
+			return true
+		})
+	}
+	c.Floor(rule, "wrapper literals in wrapper-returning methods", n, floor)
+}
+
+// ---------------------------------------------------------------- R-PAYLOAD
+
+// Payload: the first result of Option/Try.Unapply is meaningful only where the second says so.
+func Payload(c *core.Ctx, rule string, pkgs []*packages.Package, scope map[*packages.Package]bool, floor int) {
+	c.Rule(rule, "after `v, ok := x.Unapply()` on an fp.Option (ok bool) or fp.Try (err error), v is used only on paths that passed the success edge of a test of ok/err (if ok, if !ok {return}, err == nil, operands of && / || in evaluation order), or in a statement that hands ok/err on together with v: elsewhere v is the zero value standing in for an absent payload")
+	n := 0
+	for _, fb := range funcBodies(c, pkgs) {
+		info := fb.Pkg.TypesInfo
+		var g *cfg.CFG
+		k := 0
+		ast.Inspect(fb.Body, func(x ast.Node) bool {
+			if fl, ok := x.(*ast.FuncLit); ok && fl.Body != fb.Body {
+				return false // literals are their own fnBody
+			}
+			as, ok := x.(*ast.AssignStmt)
+			if !ok || len(as.Lhs) != 2 || len(as.Rhs) != 1 {
+				return true
+			}
+			call, ok := ast.Unparen(as.Rhs[0]).(*ast.CallExpr)
+			if !ok || len(call.Args) != 0 {
+				return true
+			}
+			sel, ok := ast.Unparen(call.Fun).(*ast.SelectorExpr)
+			if !ok || sel.Sel.Name != "Unapply" {
+				return true
+			}
+			rtv, ok := info.Types[sel.X]
+			if !ok || !(isNamed(rtv.Type, "fp", "Option") || isNamed(rtv.Type, "fp", "Try")) {
+				return true
+			}
+			v, flag := objOf(info, as.Lhs[0]), objOf(info, as.Lhs[1])
+			if v == nil {
+				return true // payload discarded
+			}
+			k++
+			n++
+			key := fb.Name + "/unapply#" + itoa(k) + ":" + v.Name()
+			if flag == nil {
+				c.Add(rule, key, as.Pos(), core.Violated, "the payload "+v.Name()+" of "+exprString(call)+" is kept but the presence flag is discarded: every use of "+v.Name()+" may see the zero value of an absent payload")
+				return true
+			}
+			isErr := !types.Identical(flag.Type(), types.Typ[types.Bool])
+			// implies(e, edge): does taking `edge` of condition e establish success?
+			var implies func(e ast.Expr, edge bool) bool
+			implies = func(e ast.Expr, edge bool) bool {
+				e = ast.Unparen(e)
+				switch t := e.(type) {
+				case *ast.Ident:
+					return !isErr && info.Uses[t] == flag && edge
+				case *ast.UnaryExpr:
+					if t.Op == token.NOT {
+						return implies(t.X, !edge)
+					}
+				case *ast.BinaryExpr:
+					switch t.Op {
+					case token.LAND:
+						return edge && (implies(t.X, true) || implies(t.Y, true))
+					case token.LOR:
+						return !edge && (implies(t.X, false) || implies(t.Y, false))
+					case token.EQL, token.NEQ:
+						if isErr {
+							a, b := ast.Unparen(t.X), ast.Unparen(t.Y)
+							if isNilIdent(info, a) {
+								a, b = b, a
+							}
+							if isNilIdent(info, b) && objOf(info, a) == flag {
+								return (t.Op == token.EQL) == edge
+							}
+						}
+					}
+				}
+				return false
+			}
+			mentions := func(nd ast.Node, o types.Object) bool {
+				return nodeContains(nd, true, func(y ast.Node) bool {
+					id, ok := y.(*ast.Ident)
+					return ok && info.Uses[id] == o
+				})
+			}
+			// unsafeUse(e, est): is v used in e at a point where success is not established?
+			var unsafeUse func(e ast.Expr, est bool) bool
+			unsafeUse = func(e ast.Expr, est bool) bool {
+				e = ast.Unparen(e)
+				if be, ok := e.(*ast.BinaryExpr); ok && (be.Op == token.LAND || be.Op == token.LOR) {
+					if unsafeUse(be.X, est) {
+						return true
+					}
+					if be.Op == token.LAND {
+						return unsafeUse(be.Y, est || implies(be.X, true))
+					}
+					return unsafeUse(be.Y, est || implies(be.X, false))
+				}
+				return !est && mentions(e, v)
+			}
+			if g == nil {
+				g = newCFG(c, fb)
+			}
+			// locate the assignment in the CFG
+			var sb *cfg.Block
+			si := -1
+			for _, b := range g.Blocks {
+				for i, nd := range b.Nodes {
+					if nd == ast.Node(as) {
+						sb, si = b, i
+					}
+				}
+			}
+			if sb == nil {
+				c.Add(rule, key, as.Pos(), core.Skipped, "assignment not a CFG node of its own (if/switch initialiser): not analysed")
+				return true
+			}
+			var bad ast.Node
+			seen := map[*cfg.Block]bool{}
+			var scan func(b *cfg.Block, from int)
+			scan = func(b *cfg.Block, from int) {
+				if bad != nil {
+					return
+				}
+				for i := from; i < len(b.Nodes); i++ {
+					nd := b.Nodes[i]
+					if nd == ast.Node(as) {
+						return // re-assignment (loop): a new pair
+					}
+					isLastCond := i == len(b.Nodes)-1 && len(b.Succs) == 2
+					if e, ok := nd.(ast.Expr); ok && isLastCond {
+						if unsafeUse(e, false) {
+							bad = nd
+							return
+						}
+						continue
+					}
+					if mentions(nd, v) {
+						// handing the flag on together with the payload is fine (return v, ok / f(v, ok) / Tuple(v, err))
+						if mentions(nd, flag) {
+							continue
+						}
+						bad = nd
+						return
+					}
+				}
+				var cond ast.Expr
+				if len(b.Succs) == 2 && len(b.Nodes) > 0 {
+					cond, _ = b.Nodes[len(b.Nodes)-1].(ast.Expr)
+				}
+				for si2, s := range b.Succs {
+					if cond != nil && implies(cond, si2 == 0) {
+						continue // success established beyond this edge
+					}
+					if !seen[s] {
+						seen[s] = true
+						scan(s, 0)
+					}
+				}
+			}
+			scan(sb, si+1)
+			if bad != nil && !scope[fb.Pkg] {
+				c.Add(rule, key, bad.Pos(), core.Skipped, "outside the packages of this property (analysed to keep the rule exercised): `"+nodeString(c, bad)+"` uses "+v.Name()+" without a test of "+flag.Name())
+			} else if bad != nil {
+				c.Add(rule, key, bad.Pos(), core.Violated, "`"+nodeString(c, bad)+"` uses "+v.Name()+" although "+flag.Name()+" has not been tested on this path: when "+exprString(sel.X)+" is empty/failed, "+v.Name()+" is the zero value and is treated as a real payload")
+			} else {
+				c.Add(rule, key, as.Pos(), core.Discharged, "payload used only behind the success edge (or handed on with its flag)")
+			}
+			return true
+		})
+	}
+	c.Floor(rule, "Unapply pairs", n, floor)
+}
+
+// ---------------------------------------------------------------- R-CACHEGUARD
+
+// CacheGuard: a filtering look-ahead caches an element only after the predicate has judged it.
+func CacheGuard(c *core.Ctx, rule string, pkgs []*packages.Package, floor int) {
+	c.Rule(rule, "in a function with a predicate parameter p func(T) bool that builds an iterator: inside its literals, an element pulled from the source (x.Next()) is stored into a captured look-ahead variable only at points reached through a condition that calls p — a look-ahead cell never holds an element the predicate has not judged (otherwise a repeated HasNext, or Next after the end, delivers the rejected element)")
+	n := 0
+	for _, fb := range funcBodies(c, pkgs) {
+		if fb.Lit == nil || fb.Decl == nil {
+			continue
+		}
+		info := fb.Pkg.TypesInfo
+		// predicate parameters of the enclosing declaration
+		preds := map[types.Object]bool{}
+		for _, f := range fb.Decl.Type.Params.List {
+			for _, nm := range f.Names {
+				if o := info.Defs[nm]; o != nil {
+					if sig, ok := o.Type().Underlying().(*types.Signature); ok && sig.Params().Len() == 1 && sig.Results().Len() == 1 && types.Identical(sig.Results().At(0).Type(), types.Typ[types.Bool]) {
+						preds[o] = true
+					}
+				}
+			}
+		}
+		if len(preds) == 0 {
+			continue
+		}
+		callsPred := func(nd ast.Node) bool {
+			return nodeContains(nd, true, func(y ast.Node) bool {
+				call, ok := y.(*ast.CallExpr)
+				return ok && preds[objOf(info, call.Fun)]
+			})
+		}
+		if !callsPred(fb.Lit.Body) {
+			continue
+		}
+		// variables holding the predicate's verdict (ok := p(v))
+		verdict := map[types.Object]bool{}
+		ast.Inspect(fb.Lit.Body, func(x ast.Node) bool {
+			if as, ok := x.(*ast.AssignStmt); ok && len(as.Lhs) == len(as.Rhs) {
+				for i, r := range as.Rhs {
+					if callsPred(r) {
+						if o := objOf(info, as.Lhs[i]); o != nil {
+							verdict[o] = true
+						}
+					}
+				}
+			}
+			return true
+		})
+		judged := func(nd ast.Node) bool {
+			return callsPred(nd) || nodeContains(nd, true, func(y ast.Node) bool {
+				id, ok := y.(*ast.Ident)
+				return ok && verdict[info.Uses[id]]
+			})
+		}
+		isPull := func(nd ast.Node) bool {
+			return nodeContains(nd, true, func(y ast.Node) bool {
+				call, ok := y.(*ast.CallExpr)
+				if !ok || len(call.Args) != 0 {
+					return false
+				}
+				sel, ok := ast.Unparen(call.Fun).(*ast.SelectorExpr)
+				if !ok || sel.Sel.Name != "Next" {
+					return false
+				}
+				tv, ok := info.Types[sel.X]
+				return ok && cursorKind(tv.Type) != ""
+			})
+		}
+		// locals holding a pulled element
+		pulled := map[types.Object]bool{}
+		ast.Inspect(fb.Lit.Body, func(x ast.Node) bool {
+			if as, ok := x.(*ast.AssignStmt); ok && len(as.Lhs) == len(as.Rhs) {
+				for i, r := range as.Rhs {
+					if isPull(r) {
+						if o := objOf(info, as.Lhs[i]); o != nil && o.Pos() >= fb.Lit.Pos() && o.Pos() <= fb.Lit.End() {
+							pulled[o] = true
+						}
+					}
+				}
+			}
+			return true
+		})
+		carries := func(e ast.Expr) bool {
+			return isPull(e) || nodeContains(e, true, func(y ast.Node) bool {
+				id, ok := y.(*ast.Ident)
+				return ok && pulled[info.Uses[id]]
+			})
+		}
+		g := newCFG(c, fb)
+		k := 0
+		for _, b := range g.Blocks {
+			for _, nd := range b.Nodes {
+				as, ok := nd.(*ast.AssignStmt)
+				if !ok || len(as.Lhs) != len(as.Rhs) {
+					continue
+				}
+				for i, l := range as.Lhs {
+					o, ok := objOf(info, l).(*types.Var)
+					if !ok || (o.Pos() >= fb.Lit.Pos() && o.Pos() <= fb.Lit.End()) || !carries(as.Rhs[i]) {
+						continue
+					}
+					k++
+					n++
+					key := fb.Name + "/cache#" + itoa(k) + ":" + o.Name()
+					target := func(x ast.Node) bool { return x == ast.Node(as) }
+					guard := func(x ast.Node) bool { return isCondNode(x) && judged(x) }
+					if len(g.Blocks) > 0 && unguardedReach(g.Blocks[0], -1, target, guard) != nil {
+						c.Add(rule, key, as.Pos(), core.Violated, "`"+nodeString(c, as)+"` stores a pulled element into the look-ahead variable "+o.Name()+" on a path that has not consulted the predicate: a rejected element stays cached, so HasNext answers true again after false and Next hands the rejected element out")
+					} else {
+						c.Add(rule, key, as.Pos(), core.Discharged, "cached only after the predicate judged the element")
+					}
+				}
+			}
+		}
+	}
+	c.Floor(rule, "look-ahead stores in predicate-driven iterators", n, floor)
+}
+
+// ---------------------------------------------------------------- R-SIBLING
+
+// Sibling: the members of one generated arity family are instances of one template.
+//
+// For every family (functions F<N>, or methods M of receiver types R<N>) the *call signature* of a member — the set of
+// callees it uses, with arity digits removed, plus whether it invokes a function-typed parameter directly — must agree
+// with the majority of the family (families of at least four members; the two smallest arities and the largest may be
+// special-cased by the template and are exempt). A deviant member was edited by hand or generated from a different text.
+func Sibling(c *core.Ctx, rule string, pkgs []*packages.Package, floor int) {
+	c.Rule(rule, "within one generated arity family (functions Name<N>, or method M of the receiver types Recv<N>) every member other than the two smallest arities and the largest uses the same set of callees — names with the arity digits removed — and agrees on whether it invokes a function-typed parameter itself; a member that deviates from the majority of a family of four or more does not compute the family's defining equation at its arity")
+	strip := func(s string) string {
+		out := make([]byte, 0, len(s))
+		for i := 0; i < len(s); i++ {
+			if s[i] < '0' || s[i] > '9' {
+				out = append(out, s[i])
+			}
+		}
+		return string(out)
+	}
+	type member struct {
+		fb    *fnBody
+		arity int
+		sig   string
+	}
+	fam := map[string][]member{}
+	for _, fb := range funcBodies(c, pkgs) {
+		if fb.Lit != nil || fb.Decl == nil {
+			continue
+		}
+		info := fb.Pkg.TypesInfo
+		name := fb.Decl.Name.Name
+		famKey := ""
+		arity := 0
+		if fb.Decl.Recv != nil && len(fb.Decl.Recv.List) == 1 {
+			rn := core.RecvTypeName(fb.Decl.Recv.List[0].Type)
+			if m := famRe.FindStringSubmatch(rn); m != nil {
+				famKey = fb.Pkg.PkgPath + "." + m[1] + "#." + name
+				arity = atoiSafe(m[2])
+			}
+		} else if m := famRe.FindStringSubmatch(name); m != nil {
+			famKey = fb.Pkg.PkgPath + "." + m[1] + "#"
+			arity = atoiSafe(m[2])
+		}
+		if famKey == "" {
+			continue
+		}
+		params := map[types.Object]bool{}
+		for _, f := range fb.Type.Params.List {
+			for _, nm := range f.Names {
+				if o := info.Defs[nm]; o != nil {
+					if _, isFn := o.Type().Underlying().(*types.Signature); isFn {
+						params[o] = true
+					}
+				}
+			}
+		}
+		set := map[string]bool{}
+		ast.Inspect(fb.Body, func(x ast.Node) bool {
+			call, ok := x.(*ast.CallExpr)
+			if !ok {
+				return true
+			}
+			if callee := calleeOf(info, call); callee != nil {
+				pk := ""
+				if callee.Pkg() != nil {
+					pk = callee.Pkg().Name() + "."
+				}
+				set[pk+strip(callee.Name())] = true
+			} else if params[objOf(info, call.Fun)] {
+				set["<invokes a function parameter>"] = true
+			}
+			return true
+		})
+		var names []string
+		for s := range set {
+			names = append(names, s)
+		}
+		sortStrings(names)
+		fam[famKey] = append(fam[famKey], member{fb, arity, joinStrs(names)})
+	}
+	n := 0
+	var keys []string
+	for k := range fam {
+		keys = append(keys, k)
+	}
+	sortStrings(keys)
+	for _, k := range keys {
+		ms := fam[k]
+		if len(ms) < 4 {
+			continue
+		}
+		lo, hi := ms[0].arity, ms[0].arity
+		cnt := map[string]int{}
+		for _, m := range ms {
+			if m.arity < lo {
+				lo = m.arity
+			}
+			if m.arity > hi {
+				hi = m.arity
+			}
+			cnt[m.sig]++
+		}
+		best, bestN := "", 0
+		for s, k2 := range cnt {
+			if k2 > bestN || (k2 == bestN && s < best) {
+				best, bestN = s, k2
+			}
+		}
+		if bestN*2 <= len(ms) {
+			continue // no clear majority: the family's bodies legitimately depend on the arity
+		}
+		for _, m := range ms {
+			if m.arity <= lo+1 || m.arity == hi {
+				continue // templates special-case their first arities (Method1/Method2 are written out) and sometimes the last
+			}
+			n++
+			if m.sig != best {
+				c.Add(rule, m.fb.Name, m.fb.Decl.Pos(), core.Violated, m.fb.Name+" uses {"+m.sig+"} where "+itoa(bestN)+" of the "+itoa(len(ms))+" members of its family use {"+best+"}: this arity is not an instance of the family's template")
+			} else {
+				c.Add(rule, m.fb.Name, m.fb.Decl.Pos(), core.Discharged, "same callees as the family")
+			}
+		}
+	}
+	c.Floor(rule, "family members compared", n, floor)
+}
+
+func atoiSafe(s string) int {
+	v := 0
+	for i := 0; i < len(s); i++ {
+		v = v*10 + int(s[i]-'0')
+	}
+	return v
+}
+
+func sortStrings(xs []string) {
+	for i := 1; i < len(xs); i++ {
+		for j := i; j > 0 && xs[j] < xs[j-1]; j-- {
+			xs[j], xs[j-1] = xs[j-1], xs[j]
+		}
+	}
 }
